@@ -47,8 +47,15 @@ SPECIAL_CHARS = ["\ufeff", "\ufffe", "\u2028", "\u2029", "\x85", "\xa0", "\u202e
                  "\ufffd", "\uffff", "\U0010ffff"]
 
 
+# texts that look like what some parser of the connection waits for or cuts at
+LOOKALIKES = ["\r\n\r\n", "\r\n", "\n\n", "x\r\n\r\ny", "HTTP/1.1 101 Switching Protocols\r\n\r\n", "\r\n\r", "\n\r\n"]
+
+
 def text_spec(big=True, cap_chars=60000):
-    small = st.text(st.one_of(_alphabet, _boundary_chars), max_size=30).map(lambda s: ["str", s])
+    small = st.one_of(st.text(st.one_of(_alphabet, _boundary_chars), max_size=30).map(lambda s: ["str", s]),
+                      st.text(st.one_of(_alphabet, _boundary_chars), max_size=30).map(lambda s: ["str", s]),
+                      st.text(st.one_of(_alphabet, _boundary_chars), max_size=30).map(lambda s: ["str", s]),
+                      st.sampled_from(LOOKALIKES).map(lambda s: ["str", s]))
     lens = [(6, st.integers(0, 60)), (3, st.sampled_from([31, 32, 62, 63, 64, 125, 126, 127])),
             (1, st.integers(0, 1500))]
     if big:
